@@ -53,144 +53,148 @@ impl<'a> Iterator for TokenIterator<'a> {
     type Item = Token;
 
     fn next(&mut self) -> Option<Token> {
-        if self.0.peek().is_none() {
-            return Some(Token::Eof);
-        }
-        let res = match self.0.next().unwrap() {
-            ' ' | '\t' => return self.next(),
-            '\r' => {
-                if self.0.peek() == Some(&'\n') {
-                    self.0.next();
-                    Token::Newline
-                } else {
-                    Token::Newline
-                }
+        // Blanks and line continuations are skipped by going round this
+        // loop, not by recursing (a long run of them would overflow the stack).
+        loop {
+            if self.0.peek().is_none() {
+                return Some(Token::Eof);
             }
-            '\n' => Token::Newline,
-            '!' => Token::Bang,
-            '(' => Token::LPar,
-            ')' => Token::RPar,
-            '/' => Token::Slash,
-            '|' => Token::Pipe,
-            '^' => Token::Caret,
-            '-' => Token::Dash,
-            '+' => Token::Plus,
-            '*' => Token::Asterisk,
-            '{' => Token::LeftBrace,
-            '}' => Token::RightBrace,
-            '?' => {
-                if self.0.peek() == Some(&'?') {
-                    self.0.next();
-                    let mut out = String::new();
-                    loop {
-                        match self.0.next() {
-                            Some('\n') | None => break,
-                            Some(x) => out.push(x),
-                        }
-                    }
-                    Token::Doc(out)
-                } else {
-                    Token::Question
-                }
-            }
-            '\\' => match self.0.next() {
-                Some('\r') => match self.0.next() {
-                    Some('\n') => self.next().unwrap(),
-                    _ => Token::Error("Expected LF or CRLF line endings".to_string()),
-                },
-                Some('\n') => self.next().unwrap(),
-                Some(x) => Token::Error(format!("Invalid escape: \\{}", x)),
-                None => Token::Error("Unexpected EOF".to_string()),
-            },
-            '#' => {
-                for c in self.0.by_ref() {
-                    if c == '\n' {
-                        break;
-                    }
-                }
-                Token::Newline
-            }
-            x @ '0'..='9' | x @ '.' => {
-                let mut integer = String::new();
-                let mut frac = None;
-                let mut exp = None;
-
-                // integer component
-                if x != '.' {
-                    integer.push(x);
-                    while let Some('0'..='9') = self.0.peek().cloned() {
-                        integer.push(self.0.next().unwrap());
-                    }
-                } else {
-                    integer.push('0');
-                }
-                // fractional component
-                if x == '.' || Some('.') == self.0.peek().cloned() {
-                    let mut buf = String::new();
-                    if x != '.' {
+            let res = match self.0.next().unwrap() {
+                ' ' | '\t' => continue,
+                '\r' => {
+                    if self.0.peek() == Some(&'\n') {
                         self.0.next();
-                    }
-                    while let Some('0'..='9') = self.0.peek().cloned() {
-                        buf.push(self.0.next().unwrap());
-                    }
-                    if !buf.is_empty() {
-                        frac = Some(buf)
+                        Token::Newline
+                    } else {
+                        Token::Newline
                     }
                 }
-                // exponent
-                if let Some('e') = self.0.peek().cloned().map(|x| x.to_ascii_lowercase()) {
-                    let mut buf = String::new();
-                    self.0.next();
-                    if let Some(c) = self.0.peek().cloned() {
-                        match c {
-                            '-' => {
-                                buf.push(self.0.next().unwrap());
+                '\n' => Token::Newline,
+                '!' => Token::Bang,
+                '(' => Token::LPar,
+                ')' => Token::RPar,
+                '/' => Token::Slash,
+                '|' => Token::Pipe,
+                '^' => Token::Caret,
+                '-' => Token::Dash,
+                '+' => Token::Plus,
+                '*' => Token::Asterisk,
+                '{' => Token::LeftBrace,
+                '}' => Token::RightBrace,
+                '?' => {
+                    if self.0.peek() == Some(&'?') {
+                        self.0.next();
+                        let mut out = String::new();
+                        loop {
+                            match self.0.next() {
+                                Some('\n') | None => break,
+                                Some(x) => out.push(x),
                             }
-                            '+' => {
-                                self.0.next();
-                            }
-                            _ => (),
+                        }
+                        Token::Doc(out)
+                    } else {
+                        Token::Question
+                    }
+                }
+                '\\' => match self.0.next() {
+                    Some('\r') => match self.0.next() {
+                        Some('\n') => continue,
+                        _ => Token::Error("Expected LF or CRLF line endings".to_string()),
+                    },
+                    Some('\n') => continue,
+                    Some(x) => Token::Error(format!("Invalid escape: \\{}", x)),
+                    None => Token::Error("Unexpected EOF".to_string()),
+                },
+                '#' => {
+                    for c in self.0.by_ref() {
+                        if c == '\n' {
+                            break;
                         }
                     }
-                    while let Some('0'..='9') = self.0.peek().cloned() {
-                        buf.push(self.0.next().unwrap());
-                    }
-                    if !buf.is_empty() {
-                        exp = Some(buf)
-                    }
+                    Token::Newline
                 }
-                Token::Number(integer, frac, exp)
-            }
-            '"' => {
-                let mut buf = String::new();
-                while let Some(c) = self.0.next() {
-                    if c == '\\' {
-                        if let Some(c) = self.0.next() {
+                x @ '0'..='9' | x @ '.' => {
+                    let mut integer = String::new();
+                    let mut frac = None;
+                    let mut exp = None;
+
+                    // integer component
+                    if x != '.' {
+                        integer.push(x);
+                        while let Some('0'..='9') = self.0.peek().cloned() {
+                            integer.push(self.0.next().unwrap());
+                        }
+                    } else {
+                        integer.push('0');
+                    }
+                    // fractional component
+                    if x == '.' || Some('.') == self.0.peek().cloned() {
+                        let mut buf = String::new();
+                        if x != '.' {
+                            self.0.next();
+                        }
+                        while let Some('0'..='9') = self.0.peek().cloned() {
+                            buf.push(self.0.next().unwrap());
+                        }
+                        if !buf.is_empty() {
+                            frac = Some(buf)
+                        }
+                    }
+                    // exponent
+                    if let Some('e') = self.0.peek().cloned().map(|x| x.to_ascii_lowercase()) {
+                        let mut buf = String::new();
+                        self.0.next();
+                        if let Some(c) = self.0.peek().cloned() {
+                            match c {
+                                '-' => {
+                                    buf.push(self.0.next().unwrap());
+                                }
+                                '+' => {
+                                    self.0.next();
+                                }
+                                _ => (),
+                            }
+                        }
+                        while let Some('0'..='9') = self.0.peek().cloned() {
+                            buf.push(self.0.next().unwrap());
+                        }
+                        if !buf.is_empty() {
+                            exp = Some(buf)
+                        }
+                    }
+                    Token::Number(integer, frac, exp)
+                }
+                '"' => {
+                    let mut buf = String::new();
+                    while let Some(c) = self.0.next() {
+                        if c == '\\' {
+                            if let Some(c) = self.0.next() {
+                                buf.push(c);
+                            }
+                        } else if c == '"' {
+                            break;
+                        } else {
                             buf.push(c);
                         }
-                    } else if c == '"' {
-                        break;
-                    } else {
-                        buf.push(c);
                     }
+                    Token::Ident(buf)
                 }
-                Token::Ident(buf)
-            }
-            x if is_ident(x) => {
-                let mut buf = String::new();
-                buf.push(x);
-                while let Some(c) = self.0.peek().cloned() {
-                    if is_ident(c) || c.is_numeric() {
-                        buf.push(self.0.next().unwrap());
-                    } else {
-                        break;
+                x if is_ident(x) => {
+                    let mut buf = String::new();
+                    buf.push(x);
+                    while let Some(c) = self.0.peek().cloned() {
+                        if is_ident(c) || c.is_numeric() {
+                            buf.push(self.0.next().unwrap());
+                        } else {
+                            break;
+                        }
                     }
+                    Token::Ident(buf)
                 }
-                Token::Ident(buf)
-            }
-            x => Token::Error(format!("Unknown character: '{}'", x)),
-        };
-        Some(res)
+                x => Token::Error(format!("Unknown character: '{}'", x)),
+            };
+            return Some(res);
+        }
     }
 }
 
